@@ -61,6 +61,7 @@ type trFunc struct {
 	mut      []int          // indices of the parameters (receiver = 0 for methods) of pointer or map type assigned through
 	mutObjs  []types.Object // the same as objects; their new values are the first components of the result
 	resType  string         // Lean type of the complete result
+	norder   int            // number of map iteration orders the function takes as extra parameters
 }
 
 type trTranslator struct {
@@ -77,7 +78,7 @@ type trTranslator struct {
 }
 
 func (t *trTranslator) leanNS(u *trUnit) string {
-	return "Knut.Generated.Go." + u.pkg[strings.LastIndex(u.pkg, "/")+1:]
+	return "Knut.Generated.Go." + trMangle(u.pkg[strings.LastIndex(u.pkg, "/")+1:])
 }
 
 // qualified Lean name of a declaration `name` of unit u as seen from unit `from`
@@ -168,9 +169,6 @@ func (t *trTranslator) leanType(from *trUnit, ty types.Type, pos token.Pos) stri
 		if x.Obj().Pkg() == nil {
 			trFail(pos, "type %s is outside the subset", x)
 		}
-		if x.TypeArgs() != nil && x.TypeArgs().Len() > 0 {
-			trFail(pos, "generic type %s is outside the subset", x)
-		}
 		if op, ok := trOpaque[x.Obj().Pkg().Path()+"."+x.Obj().Name()]; ok {
 			return op
 		}
@@ -181,8 +179,23 @@ func (t *trTranslator) leanType(from *trUnit, ty types.Type, pos token.Pos) stri
 		if u == nil {
 			trFail(pos, "type %s belongs to a package that is not translated", x)
 		}
-		t.needType(u, x, pos)
-		return t.qname(from, u, trMangle(x.Obj().Name()))
+		t.needType(u, x.Origin(), pos)
+		base := t.qname(from, u, trMangle(x.Obj().Name()))
+		if x.TypeArgs() != nil && x.TypeArgs().Len() > 0 {
+			parts := []string{base}
+			for i := 0; i < x.TypeArgs().Len(); i++ {
+				parts = append(parts, t.leanType(from, x.TypeArgs().At(i), pos))
+			}
+			return "(" + strings.Join(parts, " ") + ")"
+		}
+		return base
+	case *types.TypeParam:
+		return trMangle(x.Obj().Name())
+	case *types.Struct:
+		if x.NumFields() == 0 {
+			return "Unit"
+		}
+		trFail(pos, "anonymous struct type is outside the subset")
 	case *types.Slice:
 		return "(List " + t.leanType(from, x.Elem(), pos) + ")"
 	case *types.Map:
@@ -292,6 +305,12 @@ func (t *trTranslator) needType(u *trUnit, n *types.Named, pos token.Pos) {
 	}
 	t.declSeen[obj] = true
 	name := trMangle(obj.Name())
+	tparams := ""
+	if n.TypeParams() != nil {
+		for i := 0; i < n.TypeParams().Len(); i++ {
+			tparams += " (" + trMangle(n.TypeParams().At(i).Obj().Name()) + " : Type)"
+		}
+	}
 	switch ut := n.Underlying().(type) {
 	case *types.Basic:
 		lt := t.leanType(u, ut, pos)
@@ -317,6 +336,9 @@ func (t *trTranslator) needType(u *trUnit, n *types.Named, pos token.Pos) {
 		}
 		t.decls[u] = append(t.decls[u], b.String())
 	case *types.Struct:
+		if tparams != "" {
+			trFail(pos, "generic struct type %s is outside the subset", obj.Name())
+		}
 		// field types first (may emit other declarations)
 		var fields []string
 		var zeros []string
@@ -335,7 +357,7 @@ func (t *trTranslator) needType(u *trUnit, n *types.Named, pos token.Pos) {
 		t.decls[u] = append(t.decls[u], b.String())
 	case *types.Slice, *types.Map:
 		lt := t.leanType(u, ut, pos)
-		t.decls[u] = append(t.decls[u], fmt.Sprintf("/-- Go: `type %s %s` (%s) -/\nabbrev %s := %s\n", obj.Name(), ut, t.l.relPos(obj.Pos()), name, lt))
+		t.decls[u] = append(t.decls[u], fmt.Sprintf("/-- Go: `type %s %s` (%s) -/\nabbrev %s%s := %s\n", obj.Name(), ut, t.l.relPos(obj.Pos()), name, tparams, lt))
 	default:
 		trFail(pos, "declaration of type %s (%s) is outside the subset", obj.Name(), ut)
 	}
